@@ -22,7 +22,7 @@ func checkC06(tier string) {
 	n := 0
 	add := func(t *Ty) {
 		// exported supported types only: no unexported fields, not the same-named second import
-		if t.has("unexported") || t.has("ext2") {
+		if t.has("unexported") || t.has("ext2") || t.has("anon") {
 			return
 		}
 		n++
